@@ -386,8 +386,13 @@ class Gen:
     def create(self):
         r = self.r
         rt = assemble([("push", r.choice([0, 7])), "PUSH0", "SSTORE", "STOP"]) if r.random() < 0.5 else assemble(["CALLER", "PUSH0", "MSTORE", ("push", 32), "PUSH0", "RETURN"])
-        mode = r.choice(["ok", "ok", "revert", "invalid"])
-        if mode == "ok":
+        mode = r.choice(["ok", "ok", "revert", "invalid", "ctx"])
+        if mode == "ctx":
+            # the constructor looks at its own context: calldata is EMPTY in a creation frame (copy, load, size),
+            # the deployed code records what it saw
+            init = assemble([("push", 32), "PUSH0", "PUSH0", "CALLDATACOPY", "CALLDATASIZE", ("push", 32), "MSTORE", "PUSH0", "CALLDATALOAD", ("push", 64), "MSTORE",
+                             r.choice(["CALLER", "CALLVALUE", "ADDRESS", "CODESIZE"]), ("push", 96), "MSTORE", ("push", 128), "PUSH0", "RETURN"])
+        elif mode == "ok":
             init = assemble([("pushn", 32, int.from_bytes(rt.ljust(32, b"\0"), "big")), "PUSH0", "MSTORE", ("push", len(rt)), "PUSH0", "RETURN"])
         elif mode == "revert":
             init = assemble([("push", 5), "PUSH0", "SSTORE", "PUSH0", "PUSH0", "REVERT"])
